@@ -191,6 +191,33 @@ pub struct Node<'gc> {
     /// a handle issued by ANOTHER arena's root set, owned by this heap value (product scope, C20 / C14)
     pub held: std::cell::RefCell<Option<H>>,
 }
+thread_local! {
+    /// Number of times a value was formatted (`{:?}`) in a block the allocator has already taken back.
+    pub static FMT_RELEASED: Cell<u32> = const { Cell::new(0) };
+    static FMT_DEPTH: Cell<u32> = const { Cell::new(0) };
+}
+/// `{:?}` of a node walks its strong children (as a derived impl would). Before reading anything it asks the
+/// tracking allocator whether the block it sits in is still allocated: formatting a pointer is a query, and a
+/// query must never read released memory.
+impl<'gc> std::fmt::Debug for Node<'gc> {
+    fn fmt(&self, f: &mut std::fmt::Formatter<'_>) -> std::fmt::Result {
+        if crate::talloc::addr_allocated(self as *const Self as usize) == Some(false) {
+            FMT_RELEASED.with(|c| c.set(c.get() + 1));
+            return f.write_str("<released>");
+        }
+        write!(f, "Node#{}", self.id)?;
+        let d = FMT_DEPTH.with(|c| c.replace(c.get() + 1));
+        if d < 3 {
+            for s in &self.s {
+                if let Some(g) = s.get() {
+                    write!(f, " -> {:?}", g)?;
+                }
+            }
+        }
+        FMT_DEPTH.with(|c| c.set(d));
+        Ok(())
+    }
+}
 unsafe impl<'gc> Collect<'gc> for Node<'gc> {
     fn trace<T: Trace<'gc>>(&self, cc: &mut T) {
         cc.trace(&self.s[0]);
@@ -820,6 +847,12 @@ impl World {
                 let td = this.sh.objs[t as usize].dropped;
                 if w.is_dropped() != td {
                     viol!("c05.is_dropped", "is_dropped() = {} for target {t} whose destructor has{} run", w.is_dropped(), if td { "" } else { " not" });
+                }
+                // formatting is a query too
+                FMT_RELEASED.with(|c| c.set(0));
+                let text = format!("{:?}", w);
+                if FMT_RELEASED.with(|c| c.get()) > 0 {
+                    viol!("c05.query_touched_released", "formatting the weak pointer to {t} ({:?}) read a value in a block that was already released: {text}", phase);
                 }
                 match w.upgrade(mc) {
                     Some(g) => {
